@@ -614,3 +614,84 @@ VARIANTS += [
       edits=_predicate(body='return recv.revocationCodeSigningValidator != nil || recv.revocationTimestampingValidator != nil')),
  dict(name='predicate-helper-result-inverted', expect='flagged(result/both-validators-nil)', edits=_predicate(test='v.canCheckRevocation()')),
 ]
+
+# class D: the deprecated client is consulted through an adapter — a type of the module that implements
+# revocation.Validator by calling the client — so that the revocation function makes one interface call. Which validator
+# is consulted is decided by the value in the interface: selected by a helper (switch), inline, by a helper that also
+# reports whether there is one, or handed on to a helper that makes the call. The adapter's call is reached through the
+# interface call that dispatches to it (every conversion of the adapter to an interface is followed to the interface calls it
+# reaches); what the adapter reads from its options parameter is what that call passes.
+_ADAPTER_TYPE = "clientAsValidator"
+def _adapter(kind='value', select='helper', opts='upfront', a_chain='o.CertChain', a_time='o.AuthenticSigningTime', a_body=None,
+             default_ret='nil', client_case='recv.revocationClient != nil', guard=True, opts_chain='wholeChain', test=None, extra_decl='', extra_stmt='', post_stmt=''):
+    recv_t = '*' + _ADAPTER_TYPE if kind == 'pointer' else _ADAPTER_TYPE
+    make = lambda who: ('&' if kind == 'pointer' else '') + _ADAPTER_TYPE + '{inner: %s.revocationClient}' % who
+    a_body = a_body or "\treturn a.inner.Validate(%s, %s)\n" % (a_chain, a_time)
+    decls = ("type " + _ADAPTER_TYPE + " struct {\n\tinner revocation.Revocation\n}\n\n" +
+             "func (a " + recv_t + ") ValidateContext(_ context.Context, o revocation.ValidateContextOptions) ([]*revocationresult.CertRevocationResult, error) {\n" + a_body + "}\n\n")
+    dflt = default_ret.replace('ADAPTER', make('recv'))
+    if select == 'helper' or select == 'consult-helper':
+        decls += ("func (recv *verifier) pickRevocationValidator() revocation.Validator {\n\tswitch {\n\tcase recv.revocationCodeSigningValidator != nil:\n\t\treturn recv.revocationCodeSigningValidator\n" +
+                  "\tcase " + client_case + ":\n\t\treturn " + make('recv') + "\n\tdefault:\n\t\treturn " + dflt + "\n\t}\n}\n\n")
+        head = "\tpicked := v.pickRevocationValidator()\n\tif %s {\n" % (test or 'picked == nil')
+    elif select == 'ok-helper':
+        decls += ("func (recv *verifier) pickRevocationValidator() (revocation.Validator, bool) {\n\tif recv.revocationCodeSigningValidator != nil {\n\t\treturn recv.revocationCodeSigningValidator, true\n\t}\n" +
+                  "\tif " + client_case + " {\n\t\treturn " + make('recv') + ", true\n\t}\n\treturn " + dflt + ", " + ('false' if default_ret == 'nil' else 'true') + "\n}\n\n")
+        head = "\tpicked, havePicked := v.pickRevocationValidator()\n\tif %s {\n" % (test or '!havePicked')
+    elif select == 'inline':
+        head = ("\tvar picked revocation.Validator\n\tif v.revocationCodeSigningValidator != nil {\n\t\tpicked = v.revocationCodeSigningValidator\n\t} else if " + client_case.replace('recv.', 'v.') + " {\n\t\tpicked = " + make('v') + "\n\t}" +
+                ("" if default_ret == 'nil' else " else {\n\t\tpicked = " + default_ret.replace('ADAPTER', make('v')) + "\n\t}") + "\n\tif %s {\n" % (test or 'picked == nil'))
+    call = 'picked.ValidateContext(ctx, %s)'
+    if select == 'consult-helper':
+        decls += ("func consultPicked(ctxArg context.Context, chosen revocation.Validator, what revocation.ValidateContextOptions) ([]*revocationresult.CertRevocationResult, error) {\n" +
+                  "\treturn chosen.ValidateContext(ctxArg, what)\n}\n\n")
+        call = 'consultPicked(ctx, picked, %s)'
+    si = 'outcome.EnvelopeContent.SignerInfo'
+    if opts == 'upfront':
+        assign = "\t\tconsultOpts.AuthenticSigningTime, _ = %s.AuthenticSigningTime()\n" % si
+        body = ("\twholeChain := %s.CertificateChain\n\tconsultOpts := revocation.ValidateContextOptions{CertChain: %s}\n" % (si, opts_chain) +
+                ("\tif %s.SignedAttributes.SigningScheme == signature.SigningSchemeX509SigningAuthority {\n%s\t}\n" % (si, assign) if guard else assign[1:]) +
+                extra_stmt + "\tcertResults, err := " + call % 'consultOpts' + "\n" + post_stmt)
+    else:
+        body = _TIME_BLOCK + extra_stmt + "\tcertResults, err := " + call % ("revocation.ValidateContextOptions{\n\t\tCertChain:            %s.CertificateChain,\n\t\tAuthenticSigningTime: authenticSigningTime,\n\t}" % si) + "\n"
+    return [(V, _BOTH_NIL_IF, head), (V, _TIME_AND_DISPATCH, body), (V, _ANCHOR, decls + extra_decl + _ANCHOR)]
+
+_WHY_D = ('the interface call runs either the configured validator or the adapter method, whose call of the client receives the fields of the options value the interface call passes; '
+          'the selecting helper, evaluated with both fields nil, can only return nil')
+VARIANTS += [
+ dict(name='benign-adapter-value-selected-by-helper', expect='silent', edits=_adapter(), why=_WHY_D),
+ dict(name='benign-adapter-pointer-selected-by-helper', expect='silent', edits=_adapter(kind='pointer'), why=_WHY_D),
+ dict(name='benign-adapter-options-literal', expect='silent', edits=_adapter(opts='literal'), why=_WHY_D),
+ dict(name='benign-adapter-selected-by-ok-helper', expect='silent', edits=_adapter(select='ok-helper'), why=_WHY_D),
+ dict(name='benign-adapter-selected-inline', expect='silent', edits=_adapter(select='inline', opts='literal'), why=_WHY_D),
+ dict(name='benign-adapter-consulted-by-helper', expect='silent', edits=_adapter(select='consult-helper'), why=_WHY_D),
+ dict(name='benign-adapter-pointer-consulted-by-helper-literal', expect='silent', edits=_adapter(kind='pointer', select='consult-helper', opts='literal'), why=_WHY_D),
+ dict(name='adapter-hands-leaf-only-to-client', expect='flagged(args/chain-deprecated-client)', edits=_adapter(a_chain='o.CertChain[:1]')),
+ dict(name='adapter-truncates-options-before-call', expect='flagged(args/chain-deprecated-client)',
+      edits=_adapter(a_body="\tif len(o.CertChain) > 1 {\n\t\to.CertChain = o.CertChain[:1]\n\t}\n\treturn a.inner.Validate(o.CertChain, o.AuthenticSigningTime)\n")),
+ dict(name='adapter-hands-zero-time-to-client', expect='flagged(args/same-signing-time)', edits=_adapter(a_time='time.Time{}')),
+ dict(name='adapter-pointer-hands-zero-time-to-client', expect='flagged(args/same-signing-time)', edits=_adapter(kind='pointer', select='consult-helper', a_time='time.Time{}')),
+ dict(name='adapter-swallows-client-error', expect='flagged(result/validator-error)',
+      edits=_adapter(a_body="\tperCert, _ := a.inner.Validate(o.CertChain, o.AuthenticSigningTime)\n\treturn perCert, nil\n")),
+ dict(name='adapter-returns-no-results-on-error', expect='flagged(aggregator/results-argument)',
+      edits=_adapter(a_body="\tperCert, err := a.inner.Validate(o.CertChain, o.AuthenticSigningTime)\n\tif len(perCert) == 0 {\n\t\treturn []*revocationresult.CertRevocationResult{}, err\n\t}\n\treturn perCert, err\n")),
+ dict(name='adapter-options-chain-sliced-upfront', expect='flagged(args/chain)', edits=_adapter(opts_chain='wholeChain[1:]')),
+ dict(name='adapter-options-time-unguarded', expect='flagged(args/signing-time-only-for-signing-authority)', edits=_adapter(guard=False)),
+ dict(name='adapter-options-time-overwritten-before-call', expect='flagged(args/signing-time-only-for-signing-authority)',
+      edits=_adapter(extra_stmt="\tif consultOpts.AuthenticSigningTime.IsZero() {\n\t\tconsultOpts.AuthenticSigningTime = outcome.EnvelopeContent.SignerInfo.SignedAttributes.SigningTime\n\t}\n")),
+ dict(name='adapter-helper-wraps-nil-client', expect='flagged(result/both-validators-nil)', edits=_adapter(default_ret='ADAPTER')),
+ dict(name='adapter-ok-helper-wraps-nil-client', expect='flagged(result/both-validators-nil)', edits=_adapter(select='ok-helper', default_ret='ADAPTER')),
+ dict(name='adapter-inline-wraps-nil-client', expect='flagged(result/both-validators-nil)', edits=_adapter(select='inline', opts='literal', default_ret='ADAPTER')),
+ dict(name='adapter-helper-falls-back-to-permissive-validator', expect='flagged(result/)',
+      edits=_adapter(default_ret='allGood{}', extra_decl="type allGood struct{}\n\nfunc (allGood) ValidateContext(_ context.Context, o revocation.ValidateContextOptions) ([]*revocationresult.CertRevocationResult, error) {\n" +
+                     "\tout := make([]*revocationresult.CertRevocationResult, len(o.CertChain))\n\tfor i := range out {\n\t\tout[i] = &revocationresult.CertRevocationResult{Result: revocationresult.ResultOK}\n\t}\n\treturn out, nil\n}\n\n")),
+ dict(name='adapter-nil-test-inverted', expect='flagged(result/)', edits=_adapter(test='picked != nil')),
+ dict(name='benign-adapter-formats-its-operands', expect='silent',
+      edits=_adapter(a_body="\t_ = fmt.Sprint(a, o)\n\treturn a.inner.Validate(o.CertChain, o.AuthenticSigningTime)\n"),
+      why='the adapter converted to an interface is an operand of a formatting call of package fmt only, which calls no method but Format/GoString/Error/String'),
+ dict(name='adapter-formats-operands-and-hands-leaf-only', expect='flagged(args/chain-deprecated-client)',
+      edits=_adapter(a_body="\t_ = fmt.Sprint(a, o)\n\treturn a.inner.Validate(o.CertChain[:1], o.AuthenticSigningTime)\n")),
+ dict(name='adapter-method-also-called-with-leaf-only', expect='flagged(args/chain-deprecated-client)',
+      edits=_adapter(post_stmt="\tif len(wholeChain) > 3 && v.revocationClient != nil {\n\t\tcertResults, err = clientAsValidator{inner: v.revocationClient}.ValidateContext(ctx, revocation.ValidateContextOptions{CertChain: wholeChain[:1]})\n\t}\n"),
+      why='the adapter method has a second, static, call site that passes a truncated chain'),
+]
